@@ -10,7 +10,6 @@ both.  Routes: label->target and target->labels dictionaries, FSA(), the free-gr
 sequences of every case pattern, built-in file and kbmag text / file (named routes whose meaning is the table in
 the text)."""
 import copy
-import json
 import multiprocessing as mp
 import os
 
